@@ -1,0 +1,55 @@
+//go:build verif
+
+package reg
+
+// Contracts checked by /verif (govc). Comment-only file; not part of normal builds.
+
+// ---- C05: chunked blob upload ----
+// Commit only after verification: the closing PUT of the upload session is reached only if the
+// digest computed over everything read from the caller's stream equals the declared digest (when
+// that is valid) and the number of bytes acknowledged equals the declared size (when given), the
+// whole stream has been consumed, and the digest sent is the digester's. Every PATCH sends the
+// current buffer: its offset is the session offset, its length is the buffer length, and the body
+// reader views the current slice.
+//@ callsite (*~/internal/reghttp.Client).Do(ctx, req)
+//@   prop C05
+//@   name reghttp.Do/commit
+//@   in ~/scheme/reg
+//@   infunc \)\.blobPutUploadChunked$
+//@   where is-commit: req.Method == "PUT"
+//@   requires digest-verified: !$valid(old(caller.d).Digest) || caller.dOut == old(caller.d).Digest
+//@   requires size-verified: old(caller.d).Size == 0 || caller.chunkStart == old(caller.d).Size
+//@   requires digest-is-computed: caller.dOut == $digestAt(caller.digester, $hv)
+//@   requires stream-consumed: caller.finalChunk && caller.chunkStart >= caller.bufStart + len(caller.bufBytes)
+//@   requires result-prepared: caller.d.Digest == caller.dOut && caller.d.Size == caller.chunkStart
+//@ callsite (*~/internal/reghttp.Client).Do(ctx, req)
+//@   prop C05
+//@   name reghttp.Do/chunk
+//@   in ~/scheme/reg
+//@   infunc \)\.blobPutUploadChunked$
+//@   where is-chunk: req.Method == "PATCH"
+//@   requires chunk-at-session-offset: caller.chunkStart == caller.bufStart
+//@   requires chunk-is-buffer: caller.chunkSize == len(caller.bufBytes) && caller.chunkSize > 0
+//@   requires body-length: req.BodyLen == caller.chunkSize
+//@   requires body-views-buffer: $view(caller.bufRdr) == caller.bufBytes
+//@ callsite io.ReadFull(r, buf)
+//@   prop C05
+//@   name io.ReadFull/chunked
+//@   in ~/scheme/reg
+//@   infunc \)\.blobPutUploadChunked$
+//@   requires reads-through-digest-tee: r == caller.digestRdr
+//@ func (*Reg).blobPutUploadChunked(ctx, r, d, putURL, rdr) (dRet, err)
+//@   prop C05
+//@   loop 0 ()
+//@     invariant size-is-len: chunkSize == len(bufBytes) && len(bufBytes) <= cap(bufBytes)
+//@     invariant reader-view: bufRdr != nil && $view(bufRdr) == bufBytes
+//@     invariant tee-wired: $teeSrc(digestRdr) == rdr && $teeDst(digestRdr) == $hashOf(digester)
+//@     invariant declared-kept: d == old(d)
+//@   loop 1 ()
+//@     invariant size-is-len: chunkSize == len(bufBytes) && len(bufBytes) <= cap(bufBytes)
+//@     invariant reader-view: bufRdr != nil && (bufChange || $view(bufRdr) == bufBytes)
+//@     invariant declared-kept: d == old(d)
+//@     invariant tee-wired: $teeSrc(digestRdr) == rdr && $teeDst(digestRdr) == $hashOf(digester)
+//@   ensures result-truthful: err == nil ==> dRet.Digest == $digestAt(digester, $hv) && dRet.Size == chunkStart
+//@   ensures declared-digest-honoured: err == nil && $valid(old(d).Digest) ==> dRet.Digest == old(d).Digest
+//@   ensures declared-size-honoured: err == nil && old(d).Size != 0 ==> dRet.Size == old(d).Size
